@@ -320,8 +320,15 @@ func (r *sharedResource) loop(ctx context.Context) {
 
 			// attempt to allocate the partition
 			id := fmt.Sprint(uuid.New())
+			issued := time.Now()
 			leaseTime := r.leaseManager.LeasePartition(ctx, id, index)
 			if leaseTime == 0 {
+				continue
+			}
+
+			// NOTE: the lease started no later than when it was requested, so count the partition only for what remains of it
+			leaseTime -= time.Since(issued)
+			if leaseTime <= 0 {
 				continue
 			}
 
